@@ -289,8 +289,17 @@ int main(int argc, char** argv) {
                              seed * 13u + static_cast<unsigned>(i));
     }
 
-    const auto deadline = std::chrono::steady_clock::now() + std::chrono::milliseconds(static_cast<long>(seconds * 1000));
-    while (std::chrono::steady_clock::now() < deadline && g_run.load()) std::this_thread::sleep_for(20ms);
+    // run for the requested time; on a loaded machine keep going (up to 4x) until the traffic that matters
+    // has actually happened: chunks stored through the control plane and peer requests answered
+    const auto start = std::chrono::steady_clock::now();
+    const auto deadline = start + std::chrono::milliseconds(static_cast<long>(seconds * 1000));
+    const auto hard_deadline = start + std::chrono::milliseconds(static_cast<long>(seconds * 4000));
+    while (g_run.load()) {
+        const auto now = std::chrono::steady_clock::now();
+        const bool progressed = g_stores.load() >= 2 && g_requests_ok.load() >= 10 && g_ticks.load() >= 50;
+        if ((now >= deadline && progressed) || now >= hard_deadline) break;
+        std::this_thread::sleep_for(20ms);
+    }
     g_run.store(false);
     for (auto& t : threads) t.join();
     main_thread.join();
